@@ -322,7 +322,7 @@ func runC14(r *Run, p *Prog) {
 						return true
 					}
 					if st, ok := in.(*ssa.Store); ok {
-						if fa, ok := st.Addr.(*ssa.FieldAddr); ok && isNamed(fa.X.Type(), pkgVarlink, "Service") {
+						if fa, ok := st.Addr.(*ssa.FieldAddr); ok && isServiceState(fa.X.Type()) {
 							return true
 						}
 					}
@@ -347,8 +347,8 @@ func runC14(r *Run, p *Prog) {
 		want := map[string]bool{svcF.Running: true}
 		if bind != nil {
 			for k := range writes[bind] {
-				if strings.HasPrefix(k, "Service.") {
-					want[strings.TrimPrefix(k, "Service.")] = true
+				if f, ok := stateKeyField(k); ok {
+					want[f] = true
 				}
 			}
 		}
@@ -366,8 +366,8 @@ func runC14(r *Run, p *Prog) {
 					"Service."+fld+" is written on the bind/serve path but not cleared by the reset: the next bind or serve on the same object starts from stale state", witnessPos(p, w)...)
 			}
 			for k := range writes[rf] {
-				f := strings.TrimPrefix(k, "Service.")
-				if strings.HasPrefix(k, "Service.") && !want[f] {
+				f, isState := stateKeyField(k)
+				if isState && !want[f] {
 					r.Ob("L7", shortName(rf), "the reset does not write Service."+f, rf.Pos(), false,
 						"the reset writes Service."+f+", which is not part of the bind/serve state: it runs before the handlers have drained, so state they still maintain (the connection accounting) is corrupted")
 				}
